@@ -166,6 +166,7 @@ type Exec struct {
 	serverClosed map[Ptr]bool
 	ctxTimeouts []*GoObj
 	pcSet    map[*Term]bool
+	eqSubst  map[*Term]*Term
 	model    map[*Term]*Term
 	modelOK  bool
 	ModelHits, ModelMiss int
@@ -282,6 +283,13 @@ func (e *Exec) branch(c *Term) bool {
 	}
 	if e.pcSet[tt.Not(c)] {
 		return false
+	}
+	// equalities x = t already in the path condition may decide c by substitution
+	if len(e.eqSubst) > 0 {
+		c2 := tt.Subst(c, e.eqSubst, map[*Term]*Term{}, nil)
+		if b, ok := c2.ConstBool(); ok {
+			return b
+		}
 	}
 	if e.pos < len(e.trail) {
 		d := &e.trail[e.pos]
@@ -1288,4 +1296,26 @@ func (e *Exec) freshString(prefix string) *Term {
 func (e *Exec) addPC(l *Term) {
 	e.pc = append(e.pc, l)
 	e.pcSet[l] = true
+	if l.Op == "=" && len(l.Args) == 2 {
+		x, t := l.Args[0], l.Args[1]
+		if !x.IsVar() {
+			x, t = t, x
+		}
+		if x.IsVar() {
+			if _, dup := e.eqSubst[x]; !dup {
+				var vs []*Term
+				t.Vars(map[*Term]bool{}, &vs)
+				occurs := false
+				for _, v := range vs {
+					if v == x {
+						occurs = true
+					}
+				}
+				if !occurs {
+					// keep the substitution idempotent: rewrite t with what is already known
+					e.eqSubst[x] = e.tt.Subst(t, e.eqSubst, map[*Term]*Term{}, nil)
+				}
+			}
+		}
+	}
 }
